@@ -4,9 +4,8 @@ nbdime.diff_format.validate_diff.
 
 wellformed(diff, base) -> list of error strings (empty = well-formed):
  * list ops ordered by position, an addrange at key k before a
-   removerange/patch at k, at most one addrange per key, removed/patched
-   ranges never overlap and stay within bounds, lengths >= 1, valuelists
-   non-empty;
+   removerange/patch at k, removed/patched ranges never overlap and stay
+   within bounds, lengths >= 1, valuelists non-empty;
  * each object key targeted at most once; add names an absent key; remove,
    replace and patch name present keys;
  * nested patches descend only into containers (list / dict / str) and are
@@ -125,8 +124,9 @@ def _wf_seq(diff, base, path, errs, kind):
                 errs.append("%s: non-character inserted" % p)
             if not 0 <= key <= n:
                 errs.append("%s: addrange out of bounds (len %d)" % (p, n))
-            if key == last_add:
-                errs.append("%s: two addrange entries at one position" % p)
+            # (several addrange entries at one position are ordered and do not
+            # overlap; the property does not forbid them -- diffs collected
+            # inside merge decisions contain such pairs)
             if key < pos:
                 errs.append("%s: addrange inside or before an already consumed range" % p)
             last_add = key
